@@ -24,7 +24,7 @@ class C11(Cfg):
                   "recomputations, pulls in any order and rounds). (a) Intended behaviour (Defects.none: deletion log consulted, a record removes every version of its row in every room): "
                   "no replica ever stores a row whose id carries a deletion record on that replica (also not behind an open writer batch), deletion records are never forgotten "
                   "(C11_invariant, C11_deleted_stays_deleted). (b) EVERY model that consults the deletion log, all other switches free — in particular the code with #18 repaired "
-                  "(findings/C11-ingest-consults-deletion-log.patch), where deletion records are per room: whatever a peer pulls from whatever source it keeps every deletion record "
+                  "(findings/C11-ingest-consults-deletion-log-v2.patch), where deletion records are per room: whatever a peer pulls from whatever source it keeps every deletion record "
                   "and stores no row in a room in which it holds a deletion record of that row (C11_pull_keeps_deleted); invariant over any schedule whose LOCAL writes do not themselves "
                   "put a row into such a room (C11_invariant_repaired, C11_deleted_stays_deleted_repaired; the guard is automatic for every write without room move outside an open batch, "
                   "C11_safe_is_automatic); for histories in which rows keep the room they were created in — the histories of the property — the statement at the level of row ids: "
